@@ -224,6 +224,7 @@ theorem seqLine_np : ∀ (fuel : Nat) (t : Tok) (s : St) (acc : Seq), seqLine fu
 theorem readName10_np (s : St) : readName10 s ≠ .error .panic := by
   intro h
   unfold readName10 at h
+  simp only at h
   repeat' (split at h <;> try (simp [pure, Except.pure] at h))
 
 theorem firstBlock_np (strict : Bool) : ∀ (fuel n : Nat) (s : St) (acc : List XRow),
